@@ -273,38 +273,19 @@ func c15Gen(seed int, illegal int) *c15Graph {
 	case 4:
 		main.addImport("nosuchmodule", "f9")
 		g.illegal = "missing-module"
-	case 5: // cycle between the first library module and main's importer chain
-		last := g.mods[len(g.mods)-1]
-		if last == lib {
-			// two-module cycle lib <-> main is the self/entry case; create a second module
-			extra := &c15Mod{name: "mz", pubGlob: map[string]bool{}, fns: []c15Fn{{name: "zz", pub: true}}}
-			g.mods = append(g.mods, extra)
-			lib.addImport("mz", "zz")
-			last = extra
+	case 5: // a cycle that does not go through the entry module: lib -> other -> lib, lib reachable from main
+		other := g.mods[len(g.mods)-1]
+		if other == lib {
+			other = &c15Mod{name: "mz", pubGlob: map[string]bool{}}
+			g.mods = append(g.mods, other)
 		}
-		pubName := ""
-		for _, f := range lib.fns {
-			if f.pub {
-				pubName = f.name
-			}
+		lib.fns = append(lib.fns, c15Fn{name: "cyca", pub: true})
+		other.fns = append(other.fns, c15Fn{name: "cycb", pub: true})
+		lib.addImport(other.name, "cycb")
+		other.addImport(lib.name, "cyca")
+		if _, ok := main.imports[lib.name]; !ok {
+			main.addImport(lib.name, "cyca")
 		}
-		if last.fn(pubName) != nil {
-			pubName = "" // would clash; import a fresh pub fn instead
-		}
-		if pubName == "" {
-			lib.fns = append(lib.fns, c15Fn{name: "cyc", pub: true})
-			pubName = "cyc"
-		}
-		if _, has := lib.imported(last.fns[0].name); !has && last != lib {
-			// make sure lib -> ... -> last exists
-			if lib.fn(last.fns[0].name) == nil && last.fns[0].pub {
-				lib.addImport(last.name, last.fns[0].name)
-			} else {
-				last.fns = append(last.fns, c15Fn{name: "viacyc", pub: true})
-				lib.addImport(last.name, "viacyc")
-			}
-		}
-		last.addImport(lib.name, pubName)
 		g.illegal = "cycle"
 	case 6:
 		main.addImport("main", "main")
